@@ -10,7 +10,7 @@ func init() {
 			{Name: "H_C02_sound_ivf", Tier: "quick", What: "ivf nlist=2 trained directly (concrete centroids and stored vectors; symbolic query, k, threshold), nprobes in {0,1,5,-3}: exact oracle at full probe, soundness otherwise", Covers: []string{"exhaustive", "approximate", "nonempty-result"}},
 			{Name: "H_C02_sound_pq", Tier: "quick", What: "pq M=1 nbits=1 trained directly with a symbolic codebook: exact oracle with the reconstruction-distance score", Covers: []string{"exhaustive", "nonempty-result"}},
 			{Name: "H_C02_sound_ivfpq", Tier: "quick", What: "ivfpq nlist=2 M=1 nbits=1 trained directly (concrete centroids/codebook/vectors; symbolic query, k, threshold)", Covers: []string{"exhaustive", "approximate", "nonempty-result"}},
-			{Name: "H_C02_flush_many", Tier: "quick", What: "5 kinds, 6 concrete vectors over 3 clusters, EVERY subset removed (64 masks), Flush, one more Add near any of the 3 centroids: result lists before the flush, after it and after the later Add exact against the reference (sound for hnsw), removed node ids are errors", Covers: []string{"ran"}},
+			{Name: "H_C02_flush_many", Tier: "quick", What: "5 kinds, 6 concrete vectors over 3 clusters, EVERY subset removed (64 masks), [Flush,] one more Add near any of the 3 centroids — of a fresh id or of a removed id (update, other removals possibly still pending): result lists before the flush, after it and after the later Add exact against the reference (sound for hnsw), removed node ids are errors", Covers: []string{"ran"}},
 			{Name: "H_C02_many", Tier: "quick", What: "ivf / pq / ivfpq (full probe) with 12 concrete vectors (one removed) — more than the default k=10 — k over all of int or left at the default: exact oracle", Covers: []string{"more-than-default-k"}},
 			{Name: "H_C02_node", Tier: "quick", What: "5 kinds x {l2sq, cosine}: WithNode(id) == WithQuery(stored vector), unknown / removed id is an error; n=2, none|Remove|Remove+Flush", Covers: []string{"node-ok", "node-error"}},
 			{Name: "H_C02_multi", Tier: "quick", What: "5 kinds, l2sq: two queries or query+node id, sum/max/mean, k>=n: per-id score = rule over the raw per-query distances", Covers: []string{"multi"}},
